@@ -13,7 +13,8 @@ C02_CAP = 20000
 FAMILY = {"F": "F", "F+": "multi-start", "K": "skeleton",
           "FB": "bunched-fork", "FS": "staged-merge", "FL": "lead-loop",
           "FK": "loop-on-break-path", "FD": "kill-in-loop",
-          "FX": "stretched", "FE": "silent-break"}
+          "FX": "stretched", "FE": "silent-break",
+          "FT": "sibling-breaks"}
 
 
 def handle(task):
@@ -231,7 +232,8 @@ def collect_generic(pid, tier, tasks, results, bounds, rule, level,
                     "input": {"name": t.get("name"), "defn": t["defn"],
                               "k": t.get("k", 2), "pres": [run["pres"]],
                               "mode": t["mode"], "pi": t.get("pi"),
-                              "names": t.get("names")},
+                              "names": t.get("names"),
+                              "seed": t.get("seed", 0)},
                     "observed": {"problem": p, "text": run.get("text")}})
             if len(samples) < 4 and len(tags) >= 3 and not probs:
                 samples.append({"definition": dsl.show(defn),
@@ -261,7 +263,28 @@ def collect_generic(pid, tier, tasks, results, bounds, rule, level,
 
 
 def replay_generic(rec):
+    import os
     i = rec["input"]
+    seed = str(i.get("seed") or 0)
+    if os.environ.get("PYTHONHASHSEED", "0") != seed:
+        # the string-hash seed is part of the schedule: re-run in a child
+        # interpreter started with that seed
+        import json
+        import subprocess
+        import sys
+        code = ("import json,sys;from mc import pool;pool.worker_setup();"
+                "from mc.checks import pvsweep;"
+                "print('RES',json.dumps(pvsweep.replay_generic("
+                "json.loads(sys.stdin.read()))))")
+        r = subprocess.run([sys.executable, "-c", code],
+                           input=json.dumps(rec), capture_output=True,
+                           text=True, env=dict(os.environ,
+                                               PYTHONHASHSEED=seed))
+        lines = [ln for ln in r.stdout.splitlines() if ln.startswith("RES ")]
+        if not lines:
+            raise RuntimeError("replay child failed: " + r.stderr[-300:])
+        v, msg = json.loads(lines[-1][4:])
+        return v, msg
     if i.get("mode") == "c01sub":
         r = handle_subsets(i)
         return bool(r["bad"]), repr([b["problem"] for b in r["bad"]])[:300]
